@@ -84,7 +84,11 @@ def run(c):
         for impl in ("ns", "container", "container+init"):
             cases.append({"id": len(cases), "runner": impl.split("+")[0], "init_cmd": impl.endswith("+init"), "submounts": subm, "mounts": mounts, "probe": probe})
             metas.append((ti, impl))
-    obs = c.run_harness("/usr/bin/unshare", cases, args=("-m", "--propagation", "private", exe), env=env, timeout=1500)
+    # private mount namespace for the harness; the directory that holds the bind sources is made a SHARED mount in it, so that a sandbox
+    # whose mounts were not detached from the host's propagation would show it in its mount table (master:N / shared:N)
+    obs = c.run_harness("/usr/bin/unshare", cases, args=("-m", "--propagation", "private", "sh", "-c",
+                                                          "mount --bind \"$VERIF_SCRATCH\" \"$VERIF_SCRATCH\" && mount --make-shared \"$VERIF_SCRATCH\" && exec " + exe),
+                        env=env, timeout=1500)
     items, src, mask_items = [], [], []
     for x, (ti, impl), o in zip(cases, metas, obs):
         if "harness_err" in o:
@@ -128,6 +132,10 @@ def run(c):
         for ln in (o.get("mountinfo") or "").splitlines():
             f = ln.split(" ")
             mp, opts = f[4], f[5].split(",")
+            tags = f[6:f.index("-")]
+            if tags:
+                c.finding_or_violation(cz("a mount of the sandbox is attached to the host's mount propagation", tag=tags[0].split(":")[0]),
+                                       dict(rep, mount_line=ln), klass="propagation")
             if mp.startswith("/proc/"):
                 continue                               # mask mounts of the container (checked through the probe)
             table.append("(%s, %s)" % (comps(mp), "true" if "ro" in opts else "false"))
